@@ -45,6 +45,7 @@ def _c04():
 def _c05():
     return [
         ("R-ERRPROP", "an Err from executing a frame never leaves the connection loop except for Connection/Io errors: it is converted into an error reply", rules_conn.rule_errprop),
+        ("R-ERRPROP-IO", "no error of the Io/Connection class (which the connection loop takes for a vanished peer) can propagate out of process_normal_command: no `?` on std::io::Error and no Io/Connection construction along the error flow", rules_conn.rule_errprop_io),
         ("R-REPLY1", "each iteration of the frame loop pushes exactly one reply; the loop is not left mid-batch", rules_conn.rule_reply1),
         ("R-PARSEERR", "a protocol error from parse_frame is queued/sent as an error reply on every path (no silent break)", rules_conn.rule_parseerr),
         ("R-PARSE-DRAIN", "the loop draining the parser ends only when parse_frame reports an incomplete buffer or an error (no frame budget that strands complete commands until the next read)", rules_conn.rule_parse_drain),
@@ -87,6 +88,7 @@ def _c11():
         ("R-AOF-PATH", "every mutator call site reachable from the event loop lies under process_normal_command's append hook, which is gated by is_write_command and precedes the dispatch", rules_aof.rule_path),
         ("R-AOF-DB", "the appended record determines the database", rules_aof.rule_db),
         ("R-AOF-RAND", "no command with a random outcome is appended verbatim", rules_aof.rule_rand),
+        ("R-AOF-FLUSH", "every path from the serialisation of the frame to a normal return of append_command passes a flush of the buffered writer", rules_aof.rule_flush_all_paths),
         ("R-AOF-FRAME", "append_command serialises exactly one Array frame of the command parts and flushes under every fsync policy", rules_aof.rule_frame),
     ]
 
@@ -99,6 +101,7 @@ def _c12():
         ("R-LUA-SHA", "EVALSHA executes the cached source unmodified through the EVAL entry with the caller's database", rules_lua.rule_sha),
         ("R-DB", "scripts act on the connection's database (see C18)", rules_db.rule_db),
         ("R-BIN", "KEYS/ARGV/arguments/replies cross the Lua boundary without lossy or UTF-8-only conversions", rules_lua.rule_bin_script),
+        ("R-LUA-PCALL", "every error the shared redis.call/redis.pcall body can return to the VM is raised by the helper that branches on is_pcall (error-origin analysis)", rules_lua.rule_pcall),
         ("R-LUA-CONV", "the RESP->Lua and Lua->RESP conversion functions agree, cell by cell, with the standard conversion table; array elements are stored at their own index", rules_lua.rule_conv),
         ("R-LUA-ATOMIC", "nothing reachable from EVAL re-enters the event loop", rules_tx.rule_tx_atomic(lambda ctx: ["storage::commands::lua::handle_eval_with_db"], "EVAL")),
         ("R-ATOMIC", "script-side command implementations refuse before they mutate", rules_cmd.rule_atomic("C12")),
@@ -126,6 +129,7 @@ def _c14():
         ("R-PS-DEDUP", "receivers are collected once per matching subscription (not de-duplicated by connection); pattern receivers only under a match test", rules_pubsub.rule_dedup),
         ("R-PS-CLOSE", "every connection observed Closing is queued for removal", rules_pubsub.rule_close),
         ("R-DISC-SIB", "both connection-removal sites drop pub/sub, blocking and monitor registrations", rules_block.rule_disc_sib),
+        ("R-PS-LABEL", "every pmessage frame is built inside the receiver loop from the current receiver's own pattern, not cached across receivers", rules_pubsub.rule_label),
         ("R-PS-RECORD", "a connection's subscription record is dropped only under `channels.is_empty() && patterns.is_empty()` (or after sweeping both global maps)", rules_pubsub.rule_record),
     ]
 
@@ -137,6 +141,7 @@ def _c15():
         ("R-ST-LASTID", "only additions write the last-ID state (field and atomics), both views move together; trim/delete never write it", rules_stream.rule_lastid),
         ("R-ST-PAIR", "every change of the entry vector has the matching length-counter update in the same function", rules_stream.rule_st_pair),
         ("R-ATOMIC", "refused stream commands change nothing", rules_cmd.rule_atomic("C15")),
+        ("R-ST-AMOUNT", "the amount subtracted from the XLEN counter is tied to the entries really removed (per-removal counter, len() difference or the drain bound)", rules_stream.rule_st_amount),
         ("R-ST-KEEPKEY", "adding to, deleting from or trimming a stream never removes its key (the last-ID state lives in the value)", rules_stream.rule_keepkey),
         ("R-ST-IDPARSE", "the stream-ID parser accumulates with checked arithmetic (no wrapping of out-of-range IDs)", rules_stream.rule_idparse),
         ("R-ST-EXHAUST", "XADD * on an existing stream is guarded by a last-ID == max-ID refusal", rules_stream.rule_exhaust),
